@@ -133,7 +133,7 @@ func Run(conf core.Config) *core.Result {
 						switch {
 						case strings.HasPrefix(nm, "checkOverlap"):
 							guards = append(guards, c)
-						case strings.HasPrefix(nm, "Copy") || nm == "Zero" || nm == "CloneFrom":
+						case strings.HasPrefix(nm, "Copy") || nm == "Zero" || nm == "CloneFrom" || nm == "reuseAsZeroed":
 							content = append(content, c)
 						}
 					}
